@@ -50,6 +50,8 @@ pub struct ChildCase {
     /// `#[child_parents]` written as a default DECOY instruction (wrong types) followed by the real one dedicated to
     /// each counterpart
     pub decoy: bool,
+    /// see FlatOpts::update
+    pub update: bool,
     pub tags: Vec<String>,
 }
 
@@ -58,12 +60,29 @@ pub struct FlatOpts {
     pub max_ghosts: usize,
     pub max_depth: usize,
     pub positional: bool,
+    /// a fixed node set instead of the chosen subset of PATHS (deep layouts whose choice cost would exceed any bound)
+    pub fixed_nodes: Option<&'static [&'static str]>,
+    /// the conversions carry `..Default::default()` and every struct of the counterpart (also the nested ones) has one
+    /// more field `u` that no member provides (C08: the update expression completes every literal the conversion builds)
+    pub update: bool,
+    /// plain members only
+    pub plain_only: bool,
+}
+
+impl FlatOpts {
+    pub const DEF: FlatOpts = FlatOpts { max_members: 3, max_ghosts: 1, max_depth: 2, positional: false, fixed_nodes: None, update: false, plain_only: false };
 }
 
 pub fn gen_child(ctx: &mut Ctx, o: &FlatOpts) -> Option<ChildCase> {
     // node set: subset of PATHS closed under prefix
     let mut nodes: Vec<String> = vec![];
+    if let Some(f) = o.fixed_nodes {
+        nodes = f.iter().map(|x| x.to_string()).collect();
+    }
     for p in PATHS {
+        if o.fixed_nodes.is_some() {
+            break;
+        }
         if p.matches('.').count() + 1 > o.max_depth {
             continue;
         }
@@ -84,7 +103,7 @@ pub fn gen_child(ctx: &mut Ctx, o: &FlatOpts) -> Option<ChildCase> {
     for k in 0..n {
         let ni = ctx.choose(nodes.len() + 1);
         let node = if ni == 0 { String::new() } else { nodes[ni - 1].clone() };
-        let leaf = [Leaf::Plain, Leaf::Rename, Leaf::Expr][ctx.choose(3)];
+        let leaf = if o.plain_only { Leaf::Plain } else { [Leaf::Plain, Leaf::Rename, Leaf::Expr][ctx.choose(3)] };
         if o.positional && leaf == Leaf::Rename {
             return ctx.reject(); // every positional member carries its designated index anyway
         }
@@ -123,11 +142,14 @@ pub fn gen_child(ctx: &mut Ctx, o: &FlatOpts) -> Option<ChildCase> {
     if ghosts.iter().any(|g| !g.0.is_empty() && !members.iter().any(|m| m.node == g.0)) {
         tags.push("ghost-only-node".into());
     }
-    let decoy = ctx.flag();
+    let decoy = !o.plain_only && ctx.flag();
     if decoy {
         tags.push("child_parents-decoy".into());
     }
-    let mut case = ChildCase { nodes, members, ghosts, positional: o.positional, decoy, tags: vec![] };
+    let mut case = ChildCase { nodes, members, ghosts, positional: o.positional, decoy, update: o.update && !o.positional, tags: vec![] };
+    if case.update {
+        tags.push("update".into());
+    }
     if o.positional {
         tags.push("positional".into());
         tags.push(if case.pos_ordered() { "pos-ordered".into() } else { "pos-unordered".into() });
@@ -226,10 +248,11 @@ impl ChildCase {
             fields.push(f);
         }
         let mut it = Item::new_struct(name, if self.positional { Shape::Tuple } else { Shape::Named }, fields);
-        it.attrs.push(Instr::new("map", None, "T"));
+        let upd = if self.update { "| ..Default::default()" } else { "" };
+        it.attrs.push(Instr::new("map", None, &format!("T{}", upd)));
         it.attrs.push(Instr::new("into_existing", None, "T"));
         if both {
-            it.attrs.push(Instr::new("try_map", None, "Tf, Er"));
+            it.attrs.push(Instr::new("try_map", None, &format!("Tf, Er{}", upd)));
             it.attrs.push(Instr::new("try_into_existing", None, "Tf, Er"));
         }
         let real = self.nodes.iter().map(|n| format!("{}: {}", self.path_text(n), ty_of(n))).collect::<Vec<_>>().join(", ");
@@ -262,6 +285,9 @@ impl ChildCase {
         for g in self.ghosts.iter().filter(|g| g.0 == node) {
             v.push((g.1.clone(), "i32".into()));
         }
+        if self.update {
+            v.push(("u".into(), "i32".into()));
+        }
         if self.positional {
             for (i, f) in v.iter_mut().enumerate() {
                 f.0 = i.to_string();
@@ -291,6 +317,10 @@ impl ChildCase {
 
     /// literal of a node given leaf values (by member orig index) and ghost values
     pub fn node_literal(&self, node: &str, tyname: &str, mval: &dyn Fn(&FMem) -> i64, gval: &dyn Fn(&(String, String, i64)) -> i64) -> String {
+        self.node_literal_u(node, tyname, mval, gval, 0)
+    }
+    /// `u`: the value of the field that only the update expression can supply (cases with `update`)
+    pub fn node_literal_u(&self, node: &str, tyname: &str, mval: &dyn Fn(&FMem) -> i64, gval: &dyn Fn(&(String, String, i64)) -> i64, u: i64) -> String {
         let mut parts = vec![];
         let mut ms: Vec<&FMem> = self.members.iter().filter(|m| m.node == node).collect();
         ms.sort_by_key(|m| m.orig);
@@ -298,10 +328,13 @@ impl ChildCase {
             parts.push(format!("{}: {}", self.target(m), mval(m)));
         }
         for c in self.nodes.iter().filter(|c| parent_of(c) == node) {
-            parts.push(format!("{}: {}", last_seg(c), self.node_literal(c, &ty_of(c), mval, gval)));
+            parts.push(format!("{}: {}", last_seg(c), self.node_literal_u(c, &ty_of(c), mval, gval, u)));
         }
         for g in self.ghosts.iter().filter(|g| g.0 == node) {
             parts.push(format!("{}: {}", g.1, gval(g)));
+        }
+        if self.update {
+            parts.push(format!("u: {}", u));
         }
         if self.positional {
             // parts are in node_fields order = index order
@@ -334,7 +367,7 @@ impl ChildCase {
                 let f = if fallible { "try_" } else { "" };
                 let wrap = |e: String| if fallible { format!("Ok::<_, Er>({})", e) } else { e };
                 // From: T holds tv (ghost slots hold 4242), expected S = tv (+marker)
-                let tlit = self.node_literal("", tn, &tv, &|_| 4242);
+                let tlit = self.node_literal_u("", tn, &tv, &|_| 4242, 777);
                 let es = s_lit(&|m: &FMem| tv(m) + if m.leaf == Leaf::Expr { m.marker } else { 0 });
                 let a = assign;
                 if fallible {
@@ -344,14 +377,17 @@ impl ChildCase {
                 }
                 // Into / IntoExisting: expected nested literal
                 let slit = s_lit(&sv);
-                let et = self.node_literal("", tn, &|m: &FMem| sv(m) + if m.leaf == Leaf::Expr { m.marker } else { 0 }, &|g| g.2);
-                let pre = self.node_literal("", tn, &|m: &FMem| 900_000 + m.orig as i64, &|g| 900_100 + g.2);
+                // `..Default::default()` supplies u = 0 in EVERY literal the conversion builds; into_existing has no update
+                // expression and leaves u as it was
+                let et = self.node_literal_u("", tn, &|m: &FMem| sv(m) + if m.leaf == Leaf::Expr { m.marker } else { 0 }, &|g| g.2, 0);
+                let ete = self.node_literal_u("", tn, &|m: &FMem| sv(m) + if m.leaf == Leaf::Expr { m.marker } else { 0 }, &|g| g.2, 900_500);
+                let pre = self.node_literal_u("", tn, &|m: &FMem| 900_000 + m.orig as i64, &|g| 900_100 + g.2, 900_500);
                 if fallible {
                     let _ = writeln!(o, "  {{ let s = {slit}; r.eq(\"{f}owned_into/{a}\", &<S as TryInto<{tn}>>::try_into(s.clone()), &{e}); r.eq(\"{f}ref_into/{a}\", &<&S as TryInto<{tn}>>::try_into(&s), &{e}); }}", e = wrap(et.clone()));
-                    let _ = writeln!(o, "  {{ let s = {slit}; let mut o1 = {pre}; let r1 = <S as TryIntoExisting<{tn}>>::try_into_existing(s.clone(), &mut o1); r.eq(\"{f}owned_into_existing/{a}\", &r1.map(|_| o1), &{e}); let mut o2 = {pre}; let r2 = <&S as TryIntoExisting<{tn}>>::try_into_existing(&s, &mut o2); r.eq(\"{f}ref_into_existing/{a}\", &r2.map(|_| o2), &{e}); }}", e = wrap(et.clone()));
+                    let _ = writeln!(o, "  {{ let s = {slit}; let mut o1 = {pre}; let r1 = <S as TryIntoExisting<{tn}>>::try_into_existing(s.clone(), &mut o1); r.eq(\"{f}owned_into_existing/{a}\", &r1.map(|_| o1), &{e}); let mut o2 = {pre}; let r2 = <&S as TryIntoExisting<{tn}>>::try_into_existing(&s, &mut o2); r.eq(\"{f}ref_into_existing/{a}\", &r2.map(|_| o2), &{e}); }}", e = wrap(ete.clone()));
                 } else {
                     let _ = writeln!(o, "  {{ let s = {slit}; r.eq(\"owned_into/{a}\", &<S as Into<{tn}>>::into(s.clone()), &{e}); r.eq(\"ref_into/{a}\", &<&S as Into<{tn}>>::into(&s), &{e}); }}", e = et);
-                    let _ = writeln!(o, "  {{ let s = {slit}; let mut o1 = {pre}; <S as IntoExisting<{tn}>>::into_existing(s.clone(), &mut o1); r.eq(\"owned_into_existing/{a}\", &o1, &{e}); let mut o2 = {pre}; <&S as IntoExisting<{tn}>>::into_existing(&s, &mut o2); r.eq(\"ref_into_existing/{a}\", &o2, &{e}); }}", e = et);
+                    let _ = writeln!(o, "  {{ let s = {slit}; let mut o1 = {pre}; <S as IntoExisting<{tn}>>::into_existing(s.clone(), &mut o1); r.eq(\"owned_into_existing/{a}\", &o1, &{e}); let mut o2 = {pre}; <&S as IntoExisting<{tn}>>::into_existing(&s, &mut o2); r.eq(\"ref_into_existing/{a}\", &o2, &{e}); }}", e = ete);
                 }
             }
         }
@@ -379,7 +415,18 @@ pub struct ParentCase {
     pub leaves: Vec<PLeaf>, // in declaration order inside #[parent(..)]
     pub plain: usize,       // number of plain members of S next to the parent member
     pub parent_first: bool,
+    /// `..Default::default()` on the conversions + one more field `w` in every nested struct that no leaf provides
+    pub update: bool,
     pub tags: Vec<String>,
+}
+
+/// gen_parent with `update` set
+pub fn gen_parent_upd(ctx: &mut Ctx, max_leaves: usize) -> Option<ParentCase> {
+    gen_parent(ctx, max_leaves).map(|mut c| {
+        c.update = true;
+        c.tags.push("update".into());
+        c
+    })
 }
 
 pub fn gen_parent(ctx: &mut Ctx, max_leaves: usize) -> Option<ParentCase> {
@@ -417,7 +464,7 @@ pub fn gen_parent(ctx: &mut Ctx, max_leaves: usize) -> Option<ParentCase> {
     }
     tags.sort();
     tags.dedup();
-    Some(ParentCase { leaves, plain, parent_first, tags })
+    Some(ParentCase { leaves, plain, parent_first, update: false, tags })
 }
 
 impl ParentCase {
@@ -473,10 +520,11 @@ impl ParentCase {
             fields.push(pf);
         }
         let mut it = Item::new_struct(name, Shape::Named, fields);
-        it.attrs.push(Instr::new("map", None, "T"));
+        let upd = if self.update { "| ..Default::default()" } else { "" };
+        it.attrs.push(Instr::new("map", None, &format!("T{}", upd)));
         it.attrs.push(Instr::new("into_existing", None, "T"));
         if both {
-            it.attrs.push(Instr::new("try_map", None, "Tf, Er"));
+            it.attrs.push(Instr::new("try_map", None, &format!("Tf, Er{}", upd)));
             it.attrs.push(Instr::new("try_into_existing", None, "Tf, Er"));
         }
         it
@@ -499,6 +547,10 @@ impl ParentCase {
         for (k, _) in ss.iter().filter(|(k, _)| k.len() == prefix.len() + 1 && k[..prefix.len()] == *prefix) {
             parts.push(format!("{}: {}", k.last().unwrap(), self.nested_literal(k, val)));
         }
+        if self.update {
+            // only `..Default::default()` can supply it (From); the reverse direction ignores it
+            parts.push("w: 0".into());
+        }
         format!("{} {{ {} }}", tyn, parts.join(", "))
     }
     pub fn render_module(&self) -> String {
@@ -511,6 +563,9 @@ impl ParentCase {
             let mut fs: Vec<String> = ls.iter().map(|l| format!("pub {}: i32", l.this)).collect();
             for (c, _) in ss.iter().filter(|(c, _)| c.len() == k.len() + 1 && c[..k.len()] == **k) {
                 fs.push(format!("pub {}: N_{}", c.last().unwrap(), c.join("_")));
+            }
+            if self.update {
+                fs.push("pub w: i32".into());
             }
             let _ = writeln!(o, "{} pub struct {} {{ {} }}", d, tyn, fs.join(", "));
         }
